@@ -436,6 +436,11 @@ structure NewNHG where
   NextHop : List NewNHGMember
   deriving DecidableEq, Repr, Inhabited
 
+/-- an installed entry of a table as the lockless deletes look at it (a group's member map) -/
+structure TblEntry where
+  NextHop : List OrigNHGMember := []
+  deriving DecidableEq, Repr, Inhabited
+
 /-- the key-only `*aft.RIB` a table-level delete builds for `validKey` / `checkFn` (opaque) -/
 structure KeyRIB where
   deriving DecidableEq, Repr, Inhabited
@@ -502,6 +507,8 @@ inductive Eff where
   | tableDel (kind : Nat)
   /-- the post-change hook for a removed entry: `hook(Delete, ts, instance, removed entry)` -/
   | postHookDel (optype : Nat) (ni : String) (entry : Option Unit)
+  /-- the post-change hook called by a lockless delete with the entry it removed -/
+  | postHookTbl (optype : Nat) (ni : String) (entry : Option TblEntry)
   | delIPv4 (ni : String) (e : Option IPv4EntryC)
   | delIPv6 (ni : String) (e : Option IPv6EntryC)
   | delMPLS (ni : String) (e : Option LabelEntryC)
